@@ -69,6 +69,11 @@ def build_state(client, name, cfg=None):
             h.rx([hdr(1)])
             h.rx([hdr(3, es=True)])
             h.api("send_headers", 3, H.ni(H.RESP))
+        elif name == "own-trailers-sent":
+            # (not in SERVER_STATES: used by C15 only) request open, the server has answered with headers and trailers
+            h.rx([hdr(1)])
+            h.api("send_headers", 1, H.ni(H.RESP))
+            h.api("send_headers", 1, H.ni(H.TRAILERS), end_stream=True)
         elif name == "closed-goaway-rcvd":
             h.rx([hdr(1)])
             h.rx([wire.goaway(1, 0)])
@@ -112,6 +117,11 @@ def build_state(client, name, cfg=None):
             req(1)
             req(3, es=True)
             h.rx([resp(3)])
+        elif name == "own-trailers-sent":
+            # (not in CLIENT_STATES: used by C15 only) request, body and request trailers sent; no response yet
+            req(1)
+            h.api("send_data", 1, b"body")
+            h.api("send_headers", 1, H.ni(H.TRAILERS), end_stream=True)
         elif name == "closed-goaway-rcvd":
             req(1)
             h.rx([wire.goaway(0, 0)])
